@@ -45,6 +45,8 @@ class Pkg:
         self.lines: dict[str, list[str]] = {}
         self.defs: dict[str, dict[str, str]] = {}     # module -> name -> kind (names *bound* there, incl. imported)
         self.all: dict[str, list[str] | None] = {}
+        self.all_tuple: set[str] = set()    # modules whose __all__ is a tuple at runtime (cannot be `+`-ed to a list)
+        self.composed: set[str] = set()     # modules whose __all__ is built from other modules' __all__
 
     def file_of(self, mod: str) -> str:
         return mod.replace(".", "/") + ("/__init__.py" if mod in self.packages else ".py")
@@ -53,7 +55,7 @@ class Pkg:
         return {self.file_of(m): "\n".join(self.lines[m]) + "\n" for m in self.order}
 
 
-def layout(rng: random.Random, name: str = "pk", nmods: tuple[int, int] = (3, 8)) -> Pkg:
+def layout(rng: random.Random, name: str = "pk", nmods: tuple[int, int] = (3, 8), late: float = 0.0) -> Pkg:
     pkg = Pkg(name)
     total = rng.randint(*nmods)
     nsub = rng.choice([0, 1, 1, 2]) if total >= 4 else 0
@@ -77,6 +79,17 @@ def layout(rng: random.Random, name: str = "pk", nmods: tuple[int, int] = (3, 8)
         order.append(f"{name}.m{j}")
     order.append(name)
     pkg.packages.add(name)
+    if late and rng.random() < late:
+        # "late" modules: nothing in the package imports them, so they may import from *everything* above - in particular
+        # from the __init__ of their own ancestors (a child reading its parent / grandparent), which the bottom-up layers
+        # above can never do.  Plain modules at any depth, or a sub-package whose child comes after its __init__.
+        spots = [name, *subs, *sorted(p for p in pkg.packages if p.endswith(".deep"))]
+        for j in range(rng.choice([1, 1, 2])):
+            if rng.random() < 0.25 and f"{name}.lp" not in pkg.packages:
+                order += [f"{name}.lp", f"{name}.lp.w"]
+                pkg.packages.add(f"{name}.lp")
+            else:
+                order.append(f"{rng.choice(spots)}.l{j}")
     pkg.order = order
     return pkg
 
@@ -95,18 +108,24 @@ def relative(pkg: Pkg, frm: str, target: str) -> str | None:
 
 def gen_package(rng: random.Random, name: str = "pk", *, hostile: bool = False, with_docs: bool = False,
                 dup_prob: float = 0.25, ns_prob: float = 0.10, shape_prob: float = 0.10,
-                nmods: tuple[int, int] = (3, 8), foreign: list[Pkg] | tuple = (), foreign_prob: float = 0.35) -> Pkg:  # noqa: C901, PLR0912, PLR0915
+                nmods: tuple[int, int] = (3, 8), foreign: list[Pkg] | tuple = (), foreign_prob: float = 0.35,
+                late: float = 0.0, compose_prob: float = 0.25) -> Pkg:  # noqa: C901, PLR0912, PLR0915
     """``ns_prob``: share of freshly bound names (definitions, import aliases) spelled like a structural name of the package
     (own module, ancestors, other modules); ``shape_prob``: share drawn from the underscore shapes (dunder, class-private
     style, sunder, ...); ``foreign``: already generated *other* top-level packages whose modules this one may import
     from (absolute spellings only; ``foreign_prob`` = share of import statements reaching over there), which keeps the
-    import graph acyclic across packages as well."""
-    pkg = layout(rng, name, nmods)
+    import graph acyclic across packages as well; ``late`` (opt-in, C05 uses 0.5): probability of 1-2 "late" modules (see layout) that read
+    their ancestors; ``compose_prob``: share of first `__all__` statements built from other modules' `__all__` (any
+    direction of the tree that is importable at that point, several sources, chains, `+` / `+=` / star-unpacking, through
+    `import m [as n]` + `n.__all__` or `from m import __all__ as n`)."""
+    pkg = layout(rng, name, nmods, late)
     foreign_mods: list[str] = []
     for other in foreign:
         foreign_mods += other.order
         pkg.defs.update(other.defs)
         pkg.all.update(other.all)
+        pkg.all_tuple |= other.all_tuple
+        pkg.composed |= other.composed
     pool = ["alpha", "beta", "gamma", "delta", "omega", "_hidden", "_p2", "Kls", "Other", "fn", "helper"]
     for idx, mod in enumerate(pkg.order):
         earlier = foreign_mods + pkg.order[:idx]
@@ -115,6 +134,8 @@ def gen_package(rng: random.Random, name: str = "pk", *, hostile: bool = False, 
         bound: dict[str, str] = {}
         explicit_all: list[str] | None = None
         all_started = False
+        own_tuple = False
+        reserved: set[str] = set()   # names an `__all__` expression reads: never re-bound later (Griffe resolves them statically)
         children = {m.rsplit(".", 1)[1] for m in pkg.order if "." in m and m.rsplit(".", 1)[0] == mod}
         nstmts = rng.randint(2, 7)
         if with_docs and rng.random() < 0.5:
@@ -132,8 +153,13 @@ def gen_package(rng: random.Random, name: str = "pk", *, hostile: bool = False, 
                 return rng.choice([n for n in SHAPED if not (alias and n in HOOKS)])
             return None
 
-        for _ in range(nstmts):
+        # one more `__all__` statement at the end, often for late modules (they are the ones that can read an ancestor)
+        is_late = idx > pkg.order.index(name)
+        extra_all = 1 if rng.random() < (0.7 if is_late else 0.25) else 0
+        for step in range(nstmts + extra_all):
             r = rng.random()
+            if step >= nstmts:
+                r = 0.95
             if r < 0.40 or not earlier:
                 nm = special_name()
                 if nm is None:
@@ -141,6 +167,8 @@ def gen_package(rng: random.Random, name: str = "pk", *, hostile: bool = False, 
                 kind = rng.choice([FUNC, CLASS, VALUE, VALUE])
                 if nm[0].isupper():
                     kind = CLASS
+                if nm in reserved:
+                    continue
                 if nm in HOOKS:
                     lines.append(HOOKS[nm])
                     bound[nm] = FUNC
@@ -172,7 +200,7 @@ def gen_package(rng: random.Random, name: str = "pk", *, hostile: bool = False, 
                     asname = special_name(alias=True) or asname
                 if nm in HOOKS and asname is None and rng.random() < 0.5:
                     asname = nm + "_x"
-                if (asname or nm) in children:
+                if (asname or nm) in children or (asname or nm) in reserved:
                     continue  # would shadow a sub-module of this package (documented Griffe limitation)
                 lines.append(f"from {spelled} import {nm}" + (f" as {asname}" if asname else ""))
                 bound[asname or nm] = pkg.defs[src][nm]
@@ -185,7 +213,7 @@ def gen_package(rng: random.Random, name: str = "pk", *, hostile: bool = False, 
                         asname = rng.choice([None, None, rest + "_m"])
                         if asname is not None:
                             asname = special_name(alias=True) or asname
-                        if (asname or rest) in children and asname is not None:
+                        if ((asname or rest) in children and asname is not None) or (asname or rest) in reserved:
                             continue
                         lines.append(f"from {dots} import {rest}" + (f" as {asname}" if asname else ""))
                         bound[asname or rest] = "module"
@@ -195,7 +223,7 @@ def gen_package(rng: random.Random, name: str = "pk", *, hostile: bool = False, 
                     # last component may well name the importing module itself, e.g. pk.s1.n0 doing `from pk.s0 import n0`)
                     parent, rest = src.rsplit(".", 1)
                     asname = rng.choice([None, None, special_name(alias=True) or rest + "_m"])
-                    if (asname or rest) not in children:
+                    if (asname or rest) not in children and (asname or rest) not in reserved:
                         lines.append(f"from {parent} import {rest}" + (f" as {asname}" if asname else ""))
                         bound[asname or rest] = "module"
                         continue
@@ -204,6 +232,8 @@ def gen_package(rng: random.Random, name: str = "pk", *, hostile: bool = False, 
                     asname = special_name(alias=True) or asname
                     if asname in children:
                         continue
+                if (asname or src.split(".")[0]) in reserved:
+                    continue
                 lines.append(f"import {src}" + (f" as {asname}" if asname else ""))
                 bound[asname or src.split(".")[0]] = "module"
             elif r < 0.88:
@@ -212,8 +242,8 @@ def gen_package(rng: random.Random, name: str = "pk", *, hostile: bool = False, 
                     exposed = [n for n in exp if n in pkg.defs[src]]
                 else:
                     exposed = [n for n in pkg.defs[src] if not n.startswith("_")]
-                if set(exposed) & children:
-                    continue  # would shadow a sub-module of this package
+                if set(exposed) & children or set(exposed) & reserved:
+                    continue  # would shadow a sub-module of this package / re-bind a name an `__all__` expression read
                 if exp is None and children & {m.rsplit(".", 1)[1] for m in [*foreign_mods, *pkg.order] if "." in m and m.rsplit(".", 1)[0] == src}:
                     # a package without __all__ also hands over its (implicitly bound) sub-modules: same shadowing
                     continue
@@ -234,7 +264,9 @@ def gen_package(rng: random.Random, name: str = "pk", *, hostile: bool = False, 
                 # __all__ forms
                 if not all_started and rng.random() < 0.18:
                     # an explicitly empty __all__: `from m import *` binds nothing although m has public names
-                    lines.append(rng.choice(["__all__ = []", "__all__ = ()", "__all__: list[str] = []"]))
+                    form = rng.choice(["__all__ = []", "__all__ = ()", "__all__: list[str] = []"])
+                    lines.append(form)
+                    own_tuple = "()" in form
                     explicit_all = []
                     all_started = True
                     bound["__all__"] = VALUE
@@ -243,41 +275,99 @@ def gen_package(rng: random.Random, name: str = "pk", *, hostile: bool = False, 
                 if not cands:
                     continue
                 pick = rng.sample(cands, rng.randint(1, min(3, len(cands))))
-                if not all_started:
-                    form = rng.choice(["list", "tuple", "concat", "from_other"])
-                    if form == "from_other" and pkg.all.get(src) is not None and src_names and not (set(pkg.all[src]) & children):
-                        alias = "src_" + src.replace(".", "_")
-                        lines.append(f"import {src} as {alias}")
-                        bound[alias] = "module"
-                        lines.append(f"__all__ = {alias}.__all__ + {pick!r}")
-                        explicit_all = [n for n in pkg.all[src]] + pick
+                usable = [m for m in earlier if pkg.all.get(m) is not None and not (set(pkg.all[m]) & (children | reserved))]
+
+                def choose_sources() -> list[str]:
+                    ancestors = [m for m in usable if mod.startswith(m + ".")]
+                    chained = [m for m in usable if m in pkg.composed]
+                    out: list[str] = []
+                    for _ in range(rng.choice([1, 1, 1, 2, 2, 3])):
+                        q = rng.random()
+                        m = rng.choice(ancestors if ancestors and q < 0.5 else chained if chained and q < 0.75 else usable)
+                        if m not in out:
+                            out.append(m)
+                    return out
+
+                def reference(srcm: str) -> str:
+                    """Emit the import that makes `srcm.__all__` reachable; return the expression spelling it."""
+                    for n in pkg.all[srcm]:
                         # names listed but not bound here would break `import *` in CPython: bind them
-                        for n in pkg.all[src]:
-                            if n not in bound and n in pkg.defs[src]:
-                                lines.insert(len(lines) - 1, f"from {src} import {n}")
-                                bound[n] = pkg.defs[src][n]
-                    elif form == "tuple":
-                        lines.append(f"__all__ = {tuple(pick)!r}")
-                        explicit_all = list(pick)
-                    elif form == "concat" and len(pick) > 1:
-                        lines.append(f"__all__ = {pick[:1]!r} + {pick[1:]!r}")
-                        explicit_all = list(pick)
+                        if n not in bound and n in pkg.defs[srcm]:
+                            lines.append(f"from {srcm} import {n}")
+                            bound[n] = pkg.defs[srcm][n]
+                    style = rng.choice(["import-as", "import-as", "import", "from-all", "from-all"])
+                    tag = srcm.replace(".", "_")
+                    if style == "import-as":
+                        lines.append(f"import {srcm} as src_{tag}")
+                        bound[f"src_{tag}"] = "module"
+                        reserved.add(f"src_{tag}")
+                        return f"src_{tag}.__all__"
+                    if style == "import":
+                        lines.append(f"import {srcm}")
+                        bound[srcm.split(".")[0]] = "module"
+                        reserved.add(srcm.split(".")[0])
+                        return f"{srcm}.__all__"
+                    rel = relative(pkg, mod, srcm)
+                    lines.append(f"from {rel if rel is not None and rng.random() < 0.6 else srcm} import __all__ as all_{tag}")
+                    bound[f"all_{tag}"] = VALUE
+                    reserved.add(f"all_{tag}")
+                    return f"all_{tag}"
+
+                if not all_started:
+                    if usable and rng.random() < compose_prob:
+                        sources = choose_sources()
+                        refs = [(reference(m), m) for m in sources]
+                        chunks = [pick] if len(pick) < 2 or rng.random() < 0.6 else [pick[:1], pick[1:]]
+                        pieces: list[tuple[str, list[str], bool]] = [(r, list(pkg.all[m]), m in pkg.all_tuple) for r, m in refs]
+                        pieces += [(repr(c), list(c), False) for c in chunks]
+                        rng.shuffle(pieces)
+                        style = rng.choice(["plus", "plus", "star", "aug"])
+                        if style == "plus" and any(t for _, _, t in pieces):
+                            style = "star"      # tuple + list raises at import time
+                        unpack = lambda text, names: ", ".join(map(repr, names)) if text.startswith("[") else f"*{text}"  # noqa: E731
+                        if style == "plus":
+                            lines.append("__all__ = " + " + ".join(text for text, _, _ in pieces))
+                        elif style == "star":
+                            lines.append("__all__ = [" + ", ".join(unpack(text, names) for text, names, _ in pieces if names or not text.startswith("[")) + "]")
+                        else:
+                            # a fresh list first (never the source's own list object: `+=` would mutate it), then `+=`
+                            text, names, _ = pieces[0]
+                            lines.append(f"__all__ = {text if text.startswith('[') else '[*' + text + ']'}")
+                            for text, _, _ in pieces[1:]:
+                                lines.append(f"__all__ += {text}")
+                        explicit_all = [n for _, names, _ in pieces for n in names]
+                        pkg.composed.add(mod)
                     else:
-                        lines.append(f"__all__ = {pick!r}")
+                        form = rng.choice(["list", "tuple", "concat"])
+                        if form == "tuple":
+                            lines.append(f"__all__ = {tuple(pick)!r}")
+                            own_tuple = True
+                        elif form == "concat" and len(pick) > 1:
+                            lines.append(f"__all__ = {pick[:1]!r} + {pick[1:]!r}")
+                        else:
+                            lines.append(f"__all__ = {pick!r}")
                         explicit_all = list(pick)
                     all_started = True
                     bound["__all__"] = VALUE
-                elif explicit_all is not None and not any(isinstance(x, tuple) for x in [explicit_all]) and "tuple" not in lines[-1]:
-                    extra = [n for n in pick if n not in explicit_all]
-                    if extra and not any(ln.startswith("__all__ = (") for ln in lines):
-                        lines.append(f"__all__ += {extra!r}")
-                        explicit_all = explicit_all + extra
+                elif explicit_all is not None and not own_tuple:
+                    if usable and rng.random() < 0.4:
+                        srcm = rng.choice(choose_sources())
+                        lines.append(f"__all__ += {reference(srcm)}")
+                        explicit_all = explicit_all + list(pkg.all[srcm])
+                        pkg.composed.add(mod)
+                    else:
+                        extra = [n for n in pick if n not in explicit_all]
+                        if extra:
+                            lines.append(f"__all__ += {extra!r}")
+                            explicit_all = explicit_all + extra
         if explicit_all is not None:
             # every listed name must exist at the end (CPython raises AttributeError on `import *` otherwise)
             explicit_all = [n for n in explicit_all if n in bound]
         pkg.lines[mod] = lines
         pkg.defs[mod] = bound
         pkg.all[mod] = explicit_all
+        if own_tuple:
+            pkg.all_tuple.add(mod)
     return pkg
 
 
